@@ -297,6 +297,8 @@ def value_truncations(wire):
     for i, c in enumerate(ch):
         parts = [x.wire for x in ch]
         vals = [c.value[:k] for k in range(c.length)] + [c.value + b'\x00']
+        # octets put in front of a value, or taken from its front (a signature read as a number would not notice leading zeros)
+        vals += [b'\x00' + c.value, b'\x00\x00' + c.value, b'\x01' + c.value] + ([c.value[1:]] if c.length else [])
         for v in vals:
             p2 = list(parts)
             p2[i] = ts.tlv(c.typ, v)
